@@ -435,9 +435,16 @@ def dispatch (c : Case) : CaseResult :=
     -- op-level replay takes precedence, so that a known scene-level finding cannot mask it
     if (c.get "hst").size == 0 then r1 else
     let r2 := Driver.C12Ops.checkOps c
-    match r2.verdict with
-    | .ok => { r1 with stats := r1.stats ++ r2.stats }
-    | _ => { r2 with stats := r1.stats ++ r2.stats, nontrivial := r1.nontrivial }
+    -- kinds the unmodified library is known to produce (ranked last in `kindOrder`)
+    let libKinds := kindOrder.drop (kindRank "attached-to-deleted-junction")
+    match r1.verdict, r2.verdict with
+    | _, .ok => { r1 with stats := r1.stats ++ r2.stats }
+    | .specfail m1, .diverge m2 =>
+      -- a concrete failing input of an unexpected kind (crash, cycle, …) beats a mere divergence
+      if libKinds.any (fun k => m1.startsWith (k ++ ":")) then
+        { r2 with stats := r1.stats ++ r2.stats, nontrivial := r1.nontrivial }
+      else { r1 with verdict := .specfail (m1 ++ " || also " ++ m2), stats := r1.stats ++ r2.stats }
+    | _, _ => { r2 with stats := r1.stats ++ r2.stats, nontrivial := r1.nontrivial }
 
 def run (_args : List String) : IO UInt32 :=
   runCases dispatch
